@@ -49,8 +49,10 @@ def read_file(path):
                 # duplicate argument names collapse to one entry in the tool (OrderedDict keyed by name);
                 # the i-th argument is the property's reference, so keep the list as written
                 args = [{'name': a.attrib['name'], 'type': a.attrib['type'], 'interface': a.attrib.get('interface'),
-                         'enum': a.attrib.get('enum')} for a in me.findall('arg')]
-                msgs[me.attrib['name']] = {'is_event': me.tag == 'event', 'args': args}
+                         'enum': a.attrib.get('enum'), 'allow_null': a.attrib.get('allow-null') == 'true'}
+                        for a in me.findall('arg')]
+                msgs[me.attrib['name']] = {'is_event': me.tag == 'event', 'args': args,
+                                           'destructor': me.attrib.get('type') == 'destructor'}
         enums = {}
         for ee in ie.findall('enum'):
             enums[ee.attrib['name']] = {
